@@ -196,3 +196,26 @@ def item_offsets(items, chunks):
         if it['k'] == 'label':
             labels[it['name']] = st
     return labels
+
+
+def rename_labels(items, mapping):
+    """a deep copy of the program with label names replaced (definitions and every reference)"""
+    def ren(o):
+        if isinstance(o, dict):
+            out = {}
+            for k, v in o.items():
+                if k in ('t', 'lab', 'off') and isinstance(v, str):
+                    out[k] = mapping.get(v, v)
+                elif k in ('pos',) and isinstance(v, list):
+                    out[k] = [mapping.get(v[0], v[0]), ren(v[1])]
+                elif k == 'diff' and isinstance(v, list):
+                    out[k] = [mapping.get(x, x) if isinstance(x, str) else ren(x) for x in v]
+                elif k == 'name' and o.get('k') == 'label':
+                    out[k] = mapping.get(v, v)
+                else:
+                    out[k] = ren(v)
+            return out
+        if isinstance(o, list):
+            return [ren(x) for x in o]
+        return o
+    return [ren(it) for it in items]
